@@ -115,6 +115,15 @@ func (ft *funcTrans) call(in ssa.CallInstruction, val *ssa.Call) {
 		}
 		return
 	}
+	if callee != nil && val != nil && callee.Pkg != nil && callee.Pkg.Pkg.Path() == "sync/atomic" && strings.HasPrefix(callee.Name(), "Load") && len(com.Args) == 1 {
+		// atomic load = load (sequential reasoning; trusted)
+		w.assumptions["sync/atomic.Load* modelled as a plain load"] = true
+		l := ft.locOfPointer(com.Args[0])
+		t := ft.readLoc(ft.curSt, l)
+		t.Sort = w.sortOf(val.Type())
+		ft.define(val, t)
+		return
+	}
 	ft.nCalls++
 	c := ft.calleeContract(com)
 	name := calleeName(com)
@@ -166,7 +175,7 @@ func (ft *funcTrans) call(in ssa.CallInstruction, val *ssa.Call) {
 			}
 		}
 		v := ft.valOf(a)
-		if v.L != nil || v.Bad != "" {
+		if (v.L != nil && !v.Opaque) || v.Bad != "" {
 			// interior pointer passed to a call: cannot model
 			panic(unsupportedErr("interior pointer passed to " + name))
 		}
